@@ -37,6 +37,17 @@ TARGETS = [
     dict(name="tbc_decrypt", file="src/tbc_header/decrypt.rs", fn="decrypt", kind="slice_loop"),
     dict(name="rc4_prga", file="src/rc4.rs", fn="pseudo_random_generation", kind="method",
          fields=[("state", ("arr", "u8")), ("i", "u8"), ("j", "u8")], helpers=["s_i", "s_j"], ret="u8"),
+    dict(name="wrath_from_small_array", file="src/wrath_header/mod.rs", fn="from_small_array", kind="function", ret="N * N", structs={"Self": ["size", "opcode"]}),
+    dict(name="wrath_from_large_array", file="src/wrath_header/mod.rs", fn="from_large_array", kind="function", ret="N * N", structs={"Self": ["size", "opcode"]},
+         free_helpers=[("clear_large_header", "src/wrath_header/decrypt.rs")]),
+    dict(name="wrath_attempt_decrypt_server_header", file="src/wrath_header/decrypt.rs", fn="attempt_decrypt_server_header", kind="method",
+         fields=[("decrypt", "opaque"), ("header", ("arr", "u8"))], helpers=[], free_helpers=["large_header"],
+         externs={"self.decrypt.apply": ("ext_apply", "self.decrypt")}, ret="option (N * N)",
+         enums={"WrathServerAttempt::AdditionalByteRequired": "None"}, ctors={"WrathServerAttempt::Header": "Some"},
+         opt_calls={"ServerHeader::from_small_array": ("tr_wrath_from_small_array", "hdr")}),
+    dict(name="wrath_decrypt_large_server_header", file="src/wrath_header/decrypt.rs", fn="decrypt_large_server_header", kind="method",
+         fields=[("decrypt", "opaque"), ("header", ("arr", "u8"))], helpers=[], externs={"self.decrypt.apply": ("ext_apply", "self.decrypt")}, ret="N * N",
+         opt_calls={"ServerHeader::from_large_array": ("tr_wrath_from_large_array", "hdr")}),
     dict(name="wrath_encrypt_server_header", file="src/wrath_header/encrypt.rs", fn="encrypt_server_header", kind="method",
          fields=[("encrypt", "opaque"), ("server_header", ("arr", "u8"))], helpers=[], free_helpers=["set_large_header"],
          externs={"self.encrypt": ("ext_apply", "self.encrypt")}, ret=("arr", "u8"), consts={"SERVER_HEADER_MINIMUM_LENGTH": ("wrath_server_header_min_length", "u8")}),
@@ -159,20 +170,23 @@ def method(t, src):
         blk = hp.block()
         if len(blk) != 1 or blk[0][0] != "tail": raise Untranslatable("helper %s is not a single expression" % h)
         helpers[h] = ([x for x in split_params(hs) if x[0] != "self"], blk[0][1])
-    env, args = {}, []
+    env, args, argtys = {}, [], {}
     for name, ty in ps[1:]:
         pt, mut = param_type(ty)
-        env[name] = ("v_" + name, pt); args.append("v_" + name)
+        env[name] = ("v_" + name, pt); args.append("v_" + name); argtys["v_" + name] = pt
     for f, ty in t["fields"]:
         env["self." + f] = ("s_" + f, ty)
     consts = dict(CONSTS); consts.update(t.get("consts", {}))
     g = Gen(env, consts, helpers)
     for h in t.get("free_helpers", []):
-        hs, hr, hb = find_fn(src, h)
+        hsrc = src
+        if isinstance(h, tuple): h, hfile = h; hsrc = strip_comments(open(os.path.join(REPO, hfile)).read())
+        hs, hr, hb = find_fn(hsrc, h)
         blk_h = Parser(tokenize(hb)).block()
         if len(blk_h) != 1 or blk_h[0][0] != "tail": raise Untranslatable("helper %s is not a single expression" % h)
         g.free_helpers[h] = ([(n_, param_type(ty_)[0]) for n_, ty_ in split_params(hs)], blk_h[0][1])
     g.externs = dict(t.get("externs", {}))
+    g.enums = dict(t.get("enums", {})); g.ctor_calls = dict(t.get("ctors", {})); g.opt_calls = dict(t.get("opt_calls", {}))
     blk = Parser(tokenize(body)).block()
     g.usize_vars = usize_variables(blk)
     fields = ["s_" + f for f, _ in t["fields"]]
@@ -193,7 +207,7 @@ def method(t, src):
     sty = "(" + " * ".join(cty(ty) for _, ty in t["fields"]) + ")"
     rty = "list N" if isinstance(t.get("ret"), tuple) else (t["ret"] if isinstance(t.get("ret"), str) and t["ret"] not in BITS else ("N" if t.get("ret") else "unit"))
     fuel = "(fuel : nat) " if g.uses_fuel else ""
-    head = "Definition tr_%s %s%s %s: option %s :=\n  %s." % (t["name"], fuel, tys, "".join("(%s : N) " % a for a in args), ("(%s)" % rty) if ro else "(%s * %s)" % (sty, rty), text)
+    head = "Definition tr_%s %s%s %s: option %s :=\n  %s." % (t["name"], fuel, tys, "".join("(%s : %s) " % (a, "list N" if isinstance(argtys[a], tuple) else "N") for a in args), ("(%s)" % rty) if ro else "(%s * (%s))" % (sty, rty), text)
     note = "(* %s fn %s(&mut self%s); fields %s; helpers inlined: %s *)" % (t["file"], t["fn"], "".join(", " + a for a in args), " ".join(fields), " ".join(helpers) or "-")
     return note + "\n" + head
 
@@ -228,6 +242,14 @@ def function(t, src):
     consts = dict(CONSTS); consts.update(t.get("consts", {}))
     g = Gen(env, consts)
     g.enums = dict(ENUMS); g.ctor_calls = dict(CTORS); g.structs = dict(STRUCTS_FN); g.opt_calls = dict(t.get("opt_calls", {}))
+    g.structs.update(t.get("structs", {}))
+    for h in t.get("free_helpers", []):
+        hsrc = src
+        if isinstance(h, tuple): h, hfile = h; hsrc = strip_comments(open(os.path.join(REPO, hfile)).read())
+        hs, hr, hb = find_fn(hsrc, h)
+        blk_h = Parser(tokenize(hb)).block()
+        if len(blk_h) != 1 or blk_h[0][0] != "tail": raise Untranslatable("helper %s is not a single expression" % h)
+        g.free_helpers[h] = ([(n_, param_type(ty_)[0]) for n_, ty_ in split_params(hs)], blk_h[0][1])
     blk = Parser(tokenize(body)).block()
     g.usize_vars = usize_variables(blk)
     def final(tail):
